@@ -437,6 +437,21 @@ def _classify_value(eng, fd, pl, bi, line, depth, payload=False, _def=None):
     if kind == 'call':
         callee = x.get('callee') or ''
         tgt = local_target(eng, x)
+        if not callee and x.get('callee_op') is not None and x['callee_op'].get('k') in ('copy', 'move') and not x['callee_op']['pl'].get('p') and body.kind != 'Closure':
+            # a call through a function-valued parameter (`parse(bytes)` with `parse: fn(&[u8]) -> Result<..>`): decided by the function the caller hands in
+            l0 = x['callee_op']['pl']['l']
+            for _ in range(4):
+                if fd.is_param(l0):
+                    break
+                ds0 = [d_ for d_ in fd.defs.get(l0, []) if not d_[2].get('dst', {}).get('p')]
+                if len(ds0) == 1 and ds0[0][0] == 'assign' and ds0[0][2]['rv']['k'] == 'use' and ds0[0][2]['rv']['op']['k'] in ('copy', 'move') and not ds0[0][2]['rv']['op']['pl'].get('p'):
+                    l0 = ds0[0][2]['rv']['op']['pl']['l']
+                else:
+                    break
+            if fd.is_param(l0):
+                g = Gate('fnparam', 'function parameter %s called' % body.local_name(l0), [fd.read_op(a) for a in x['args']], body.path, bi, x.get('line', line), args=x['args'])
+                g.param = l0
+                return g
         if tgt is not None:
             if payload:
                 pg = _payload_gate(eng, fd, x, bi, x.get('line', line), depth)
@@ -835,6 +850,12 @@ class GateAnalysis:
                         continue
                 if g.kind == 'fnparam' and g.param is not None and g.param - 1 < len(args) and depth < 6:
                     F = args[g.param - 1]
+                    if F.get('k') in ('copy', 'move'):
+                        # the function item reified into a pointer / copied before it is handed over
+                        from rf_frame import _fn_const
+                        fc = _fn_const(fd, F)
+                        if fc:
+                            F = {'k': 'const', 'fn': fc, 'fn_full': fc}
                     if F.get('k') == 'const' and F.get('fn') in self.eng.prog.bodies:
                         # the function handed in decides: its accept paths, first in the callee's terms (items stand for its argument), then in ours
                         cfd = self.eng.fndep(callee)
